@@ -617,8 +617,11 @@ class ListItem(BlockToken):
         start_line = lines.line_number()
         next_line = lines.peek()
         indentation, prepend, leader, content = prev_marker if prev_marker else cls.parse_marker(line)
+        content_start_line = start_line
         if content.strip() == '':
             # item starting with a blank line: look for the next non-blank line
+            # (the marker's line is not part of the content, which starts one line further down)
+            content_start_line = start_line + 1
             prepend = indentation + len(leader) + 1
             blanks = 1
             while next_line is not None and next_line.strip() == '':
@@ -677,7 +680,7 @@ class ListItem(BlockToken):
 
         # block-level tokens are parsed here, so that footnotes can be
         # recognized before span-level parsing.
-        parse_buffer = tokenizer.tokenize_block(line_buffer, _token_types, start_line=start_line)
+        parse_buffer = tokenizer.tokenize_block(line_buffer, _token_types, start_line=content_start_line)
         return (parse_buffer, indentation, prepend, leader, start_line), next_marker
 
 
